@@ -146,10 +146,44 @@ def build_setop(w):
                    'forall(0, len(targets), lambda k: 0 <= own[k] and own[k] < i and PHYS(%s[own[k]]) and TNUM(targets[k]) == ctx.argmap[%s[own[k]].name].index)' % (QP, QP)])},
         hints={'var_types': {'targets': 'Seq[Obj]', 'used': 'Set[int]'}, 'ghost_out': ['own']})
 
+def build_extract(w):
+    """F (parameter consistency between the SQL text and what is reported to the client): compiler._extract_params files the descriptor of every user parameter under
+    its LOGICAL position in the argument map (a tuple parameter takes several physical `$n` but one logical slot) -- view: an ordinary query (argmap given, no script)."""
+    COMP = 'edb/server/compiler/compiler.py'; DBS = 'edb/server/compiler/dbstate.py'
+    w.rec('DParam', [('name', 'str'), ('required', 'bool'), ('array_type_id', 'Opt[Obj]'), ('outer_idx', 'Opt[int]'), ('sub_params', 'Opt[Obj]')], DBS, 'Param')
+    w.refclass('Src', {}); w.ext_methods['Src.first_extra'] = dict(params={}, returns='Opt[int]', ensures=['implies(not is_none(result), some(result) >= 0)'])
+    w.refclass('XCtx', {'source': 'Opt[Src]', 'json_parameters': 'bool'})
+    w.ext_methods['Obj.get'] = dict(params={'n': 'str'}, returns='Obj'); w.ext_methods['Obj.get_element_type'] = dict(params={'s': 'Obj'}, returns='Obj')
+    w.classes['Obj']['id'] = 'Obj'
+    LI = lambda k: 'some(argmap)[params[%s].name].logical_index' % k
+    NAMES = 'forall(0, len(params), lambda a: forall(0, len(params), lambda b: implies(a != b, params[a].name != params[b].name)))'
+    FILED = lambda hi, ita, op: ('implies(0 <= K and K < %s and not SUBP(params[K]) and %s - 1 < len(%s), not is_none(%s[%s - 1]) and some(%s[%s - 1]).name == params[K].name '
+                                 'and not is_none(%s[%s - 1]) and some(%s[%s - 1])[0] == params[K].name)' % (hi, LI('K'), ita, ita, LI('K'), ita, LI('K'), op, LI('K'), op, LI('K')))
+    w.contract(COMP, '_extract_params', params={'params': 'Seq[Param]', 'schema': 'Obj', 'argmap': 'Opt[Map[str,PgParam]]', 'script_info': 'Opt[Obj]', 'ctx': 'XCtx'},
+        returns='Tuple[Seq[Opt[Tuple[str,Obj,bool]]],Seq[Opt[DParam]]]', ghost={'K': 'int'},
+        requires=['not is_none(argmap)', 'is_none(script_info)', NAMES,
+                  # what populate_argmap guarantees (its verified postcondition): every user parameter is mapped, logical slots are >= 1 and pairwise distinct
+                  'forall(0, len(params), lambda j: implies(not SUBP(params[j]), params[j].name in some(argmap) and %s >= 1))' % LI('j'),
+                  'forall(0, len(params), lambda a: forall(0, len(params), lambda b: implies(a != b and not SUBP(params[a]) and not SUBP(params[b]), %s != %s)))' % (LI('a'), LI('b'))],
+        ensures=['len(result[0]) == len(result[1])', FILED('len(params)', 'result[1]', 'result[0]')],
+        raises={'RuntimeError': {}, 'AssertionError': {}},
+        loops={0: dict(fingerprint='for (idx, param) in enumerate(params)', index='i',
+                       invariant=['len(oparams) == len(in_type_args)', 'len(oparams) == (user_params if user_params > 0 else 0)', FILED('i', 'in_type_args', 'oparams')])},
+        abstract={'first_param = next(iter(params)) if params else None': dict(assigns={'first_param': 'Opt[Param]'}),
+                  'has_named_params = first_param and (not first_param.name.isdecimal())': dict(assigns={'has_named_params': 'bool'}),
+                  'oparams: list[Optional[tuple[str, s_obj.Object, bool]]] = [None] * user_params':
+                      dict(assigns={'oparams': 'Seq[Opt[Tuple[str,Obj,bool]]]'}, ensures=['len(oparams) == (user_params if user_params > 0 else 0)', 'forall(0, len(oparams), lambda j: is_none(oparams[j]))']),
+                  'in_type_args: list[Optional[dbstate.Param]] = [None] * user_params':
+                      dict(assigns={'in_type_args': 'Seq[Opt[DParam]]'}, ensures=['len(in_type_args) == (user_params if user_params > 0 else 0)', 'forall(0, len(in_type_args), lambda j: is_none(in_type_args[j]))']),
+                  'if not script_info and (not has_named_params) and (str(idx) != param.name):': dict(assigns={}, raises=['RuntimeError']),
+                  'if param.sub_params:': dict(assigns={'sub_params': 'Opt[Obj]'}, raises=['AssertionError'])},
+        hints={'var_types': {'outer_mapping': 'Opt[Map[str,int]]'}})
+    return w
+
 def build():
     w = World('C13')
     w.refclass('Obj', {}, universal=True)
-    w.rec('Param', [('name', 'str'), ('required', 'bool'), ('sub_params', 'Opt[Obj]'), ('ir_type', 'Obj')], IRAST, 'Param')
+    w.rec('Param', [('name', 'str'), ('required', 'bool'), ('sub_params', 'Opt[Obj]'), ('ir_type', 'Obj'), ('schema_type', 'Obj')], IRAST, 'Param')
     w.rec('Global', [('name', 'str'), ('required', 'bool'), ('has_present_arg', 'bool')], IRAST, 'Global')
     w.rec('PgParam', [('index', 'int'), ('required', 'bool'), ('logical_index', 'int')], PGAST, 'Param')
     w.refclass('Env', {'named_param_prefix': 'Opt[Obj]', 'query_params': 'Seq[Param]'})
@@ -254,6 +288,7 @@ def build():
                  # the normalised hint: "v" for the empty hint, else the hint without a trailing ~digits (it never ends in ~digits itself)
                  'implies(hint == "", H == "v")', 'str_prefixof(H, hint) or hint == ""'])
     build_setop(w)
+    build_extract(w)
     return w
 
 def scenarios(tier, seed, repo_root, outdir):
@@ -266,6 +301,7 @@ def scenarios(tier, seed, repo_root, outdir):
     p = subprocess.run(['/venv/bin/python', os.path.join(here, 'scenario.py'), str(seed), '3' if tier == 'quick' else '4', out], capture_output=True, text=True, env=env, cwd=repo_root, timeout=3000)
     if not os.path.exists(out): raise RuntimeError('scenario runner failed: ' + (p.stderr or p.stdout)[-2000:])
     r = json.load(open(out))
+    if not r['failure'] and not (r.get('extract', {}).get('runs', 0) > 20): raise RuntimeError('_extract_params explorer is vacuous: %r' % r.get('extract'))
     # set-operation output columns: the real _get_path_var_in_setop on all small UNION trees (see scenario_setop.py)
     out2 = os.path.join(outdir, 'scenario_setop_out.json')
     if os.path.exists(out2): os.unlink(out2)
@@ -276,10 +312,10 @@ def scenarios(tier, seed, repo_root, outdir):
         raise RuntimeError('set-operation explorer is vacuous: %r' % r2['stats'])
     fail = r['failure'] or (dict(function='pathctx._get_path_var_in_setop', **r2['failure']) if r2['failure'] else None)
     return dict(evaluations=r['argmaps'] + r['alias_runs'] + r2['cases'], failure=fail,
-                label='%d (parameter list, globals, naming mode) combinations through the real populate_argmap; %d hint sequences through two real AliasGenerators; '
+                label='%d (parameter list, globals, naming mode) combinations through the real populate_argmap (and, without globals, the real fini_toplevel and compiler._extract_params); %d hint sequences through two real AliasGenerators; '
                       '%d UNION trees (2..%s arms, each arm providing the path or not, with / without a view path-id map, 3 aspects) through the real _get_path_var_in_setop (bounded)'
                       % (r['argmaps'], r['alias_runs'], r2['cases'], '3' if tier == 'quick' else '4'),
-                clause='physical slots form 1..N, logical slots 1..L, ordinary before extracted parameters; aliases deterministic and pairwise distinct; '
+                clause='physical slots form 1..N, logical slots 1..L, ordinary before extracted parameters; every user parameter described at its logical position; aliases deterministic and pairwise distinct; '
                        'a set operation exposes the path under the column name of its leftmost arm, arms stay balanced, a failed lookup leaves no placeholder behind')
 
 
@@ -305,4 +341,34 @@ def extra_obligations(w, tier, seed):
     und = key_ok is None or order_ok is None
     out.append(ob('scan/detached-params/ordered-by-physical-index', 'compile_ir_to_sql_tree: detached_params lists the parameter types in the order of ctx.argmap[name].index '
                   '(a dict keyed by that index, read out through sorted(...items()))', bool(key_ok and order_ok), '; '.join(where) or 'shape not recognised', undecided=und and not (key_ok is False or order_ok is False)))
+    # E (scoping, AST obligation): LATERAL visibility.  Whether a range variable may refer to its siblings in FROM is decided by the caller and handed down as `lateral`;
+    #   in edb/pgsql/compiler/relctx.py every function that takes `lateral` hands it on to the builder call that produces what it returns (a call in a `return`, or an assignment to
+    #   the returned variable outside any loop).  Dropping it at one level gives a sub-select that refers to a sibling it cannot see.
+    REL = 'edb/pgsql/compiler/relctx.py'
+    BUILDERS = {'rvar_for_rel', 'range_from_queryset', 'range_for_typeref', 'range_for_material_objtype', 'new_primitive_rvar', 'new_root_rvar', 'new_free_object_rvar',
+                'new_rel_rvar', 'RangeSubselect'}
+    bad = []; sites = 0; funcs = 0
+    for fn in [n for n in repo.module(REL).tree.body if isinstance(n, ast.FunctionDef)]:
+        if 'lateral' not in [a.arg for a in fn.args.args + fn.args.kwonlyargs]: continue
+        funcs += 1
+        retvars = {r.value.id for r in ast.walk(fn) if isinstance(r, ast.Return) and isinstance(r.value, ast.Name)}
+        def visit(body, in_loop):
+            nonlocal sites
+            for st in body:
+                call = None
+                if isinstance(st, ast.Return) and isinstance(st.value, ast.Call): call = st.value
+                elif isinstance(st, ast.Assign) and len(st.targets) == 1 and isinstance(st.targets[0], ast.Name) and st.targets[0].id in retvars and isinstance(st.value, ast.Call) and not in_loop:
+                    call = st.value
+                if call is not None and ast.unparse(call.func).split('.')[-1] in BUILDERS:
+                    sites += 1
+                    kw = {k.arg: ast.unparse(k.value) for k in call.keywords}
+                    if kw.get('lateral') != 'lateral': bad.append('%s line %d: %s(... lateral=%s)' % (fn.name, call.lineno, ast.unparse(call.func), kw.get('lateral')))
+                for fld in ('body', 'orelse', 'finalbody'):
+                    sub = getattr(st, fld, None)
+                    if isinstance(sub, list) and not isinstance(st, (ast.FunctionDef, ast.ClassDef)): visit(sub, in_loop or isinstance(st, (ast.For, ast.While)))
+                if isinstance(st, ast.Try):
+                    for h in st.handlers: visit(h.body, in_loop)
+        visit(fn.body, False)
+    out.append(ob('scan/relctx/lateral-handed-on', 'relctx.py: every function taking `lateral` passes lateral=lateral to the range-variable builder whose result it returns',
+                  funcs >= 5 and sites >= 10 and not bad, '; '.join(bad[:4]) or '%d functions, %d builder calls' % (funcs, sites), undecided=(funcs < 5 or sites < 10) and not bad))
     return out
